@@ -172,8 +172,18 @@ impl SharedDatabase {
 
         #[cfg(kahflane_turdb_verif)]
         crate::verif::crash_point("ckpt.rotated");
-        let root_dir = self.path.join(crate::storage::DEFAULT_SCHEMA);
-        let frames = Database::replay_schema_tables_from_segments(&root_dir, &closed_segments)?;
+        // Table pages are modified in place through the mmaps, so a live table file is never older
+        // than the log. Copying logged page images back would overwrite newer contents that were
+        // not logged yet (open transaction, statement that failed half-way, wal_autoflush = OFF,
+        // TRUNCATE). Making the files durable is all a checkpoint of a running database needs.
+        let frames = closed_segments
+            .iter()
+            .filter_map(|p| std::fs::metadata(p).ok())
+            .map(|m| m.len() / crate::database::recovery::FRAME_SIZE as u64)
+            .sum::<u64>() as u32;
+        if let Some(file_manager) = self.file_manager.write().as_mut() {
+            file_manager.sync_all()?;
+        }
         #[cfg(kahflane_turdb_verif)]
         crate::verif::crash_point("ckpt.replayed");
 
@@ -4802,8 +4812,13 @@ impl Drop for SharedDatabase {
             };
 
             if !closed_segments.is_empty() {
-                let root_dir = self.path.join(crate::storage::DEFAULT_SCHEMA);
-                let _ = Database::replay_schema_tables_from_segments(&root_dir, &closed_segments);
+                // the mapped table files already hold every logged page image (and possibly newer,
+                // unlogged ones): sync them, never copy log frames back over them
+                if let Some(mut file_manager_guard) = self.file_manager.try_write() {
+                    if let Some(ref mut file_manager) = *file_manager_guard {
+                        let _ = file_manager.sync_all();
+                    }
+                }
 
                 // Remove closed segments (full checkpoint = truncate)
                 let guard = self.wal.lock();
